@@ -402,6 +402,22 @@ func RunC01(d *Driver) *Report {
 		}
 	}
 	r.Rule += fmt.Sprintf("; access: %d index and slice expressions (arrays, nested arrays, ASCII and non-ASCII strings of length 0..3; every position in [-5,5], every pair of bounds in [-4,4] or missing) against the Lean evaluator model", nacc)
+	// the documented meaning of `+` and `*` on array operands: concatenation makes a fresh array whose elements are
+	// shared, repetition copies deeply — also composites held in an any element, at any depth
+	for _, src := range []string{
+		"inner := [1]\na := [inner \"x\"] * 2\ninner[0] = 9\nprint a\na[0] = 5\nprint a inner\n",
+		"m := {k:1}\na := [m 1] * 2\nm.k = 5\nprint a m\n",
+		"inner := [1]\nw:any\nw = inner\na := [w] * 3\ninner[0] = 7\nprint a w\n",
+		"inner := [[1] [2]]\nx:any\nx = inner\na := [x x] * 2\ninner[0][0] = 9\nprint a x\nt := a[0].([][]num)\nt[1][0] = 8\nprint a\n",
+		"deep := {a:[{b:[1]}]}\nr := [deep] * 2\nq := [deep 1] * 2\nprint r q\nt := q[0].({}[]{}[]num)\nt.a[0].b[0] = 9\nprint r q deep\n",
+		"inner := [1]\nc := [inner \"x\"] + [inner \"y\"]\ninner[0] = 9\nprint c\nd := c * 1\ninner[0] = 4\nprint c d\n",
+		"a := [1 2] * 0\nb := [[1]] * 1\nc := [\"a\"] * 3\nd := [] * 5\nprint a b c d (len c) (typeof d)\n",
+		"n := 2\ns := [n n+1] * n\nprint s (s == [2 3 2 3]) ([1] * 2 == [1 1]) ([[1]] * 2 == [[1] [1]])\n",
+	} {
+		if c := evalStream(r, d, "array-operators", src, RunOpts{}, parts, true, nil); c.Skipped == "rejected" {
+			r.Disagree(Case{Stream: "array-operators", Input: src, Real: "rejected: " + c.Real.ParseErr, Note: "harness program should be accepted"})
+		}
+	}
 	// evaluation order and short circuit
 	for _, src := range c01OrderPrograms() {
 		c := evalStream(r, d, "order", src, RunOpts{}, parts, true, nil)
@@ -543,6 +559,19 @@ func RunC02(d *Driver) *Report {
 	}
 	for _, src := range TypeMatrixPrograms() {
 		evalStream(r, d, "typematrix", src, RunOpts{}, parts, true, oracle)
+	}
+	// assignment targets: every access path (index, field, nested) into variables of every shape, with values of
+	// several types — whatever the parser accepts is executed (a string reached through a composite is not assignable)
+	{
+		pre := "s := \"abc\"\nas := [\"abc\" \"de\"]\nass := [[\"abc\"]]\nms := {k:\"abc\"}\nmas := {k:[\"abc\"]}\nams := [{k:\"abc\"}]\nan := [1 2]\naan := [[1 2]]\nmn := {k:1}\ny:any\ny = \"abc\"\naa:[]any\naa = [\"abc\" [1]]\n"
+		use := "print s as ass ms mas ams an aan mn y aa\n"
+		for _, v := range []string{"s", "as", "ass", "ms", "mas", "ams", "an", "aan", "mn", "y", "aa"} {
+			for _, path := range []string{"[0]", "[0][0]", "[0][1]", "[0][0][0]", ".k", ".k[0]", ".k[0][0]", "[0].k", "[0].k[0]", "[\"k\"]", "[\"k\"][0]", "[-1]", "[-1][-1]"} {
+				for _, val := range []string{"\"x\"", "1", "[1]", "[\"x\"]", "{k:\"x\"}", "y"} {
+					evalStream(r, d, "assignment-targets", pre+v+path+" = "+val+"\n"+use, RunOpts{}, parts, true, oracle)
+				}
+			}
+		}
 	}
 	for _, src := range AnyEqualityPrograms() {
 		evalStream(r, d, "any-equality", src, RunOpts{}, parts, true, oracle)
